@@ -53,6 +53,12 @@ func (v *Vue) evalInclude(ctx VueContext, node *html.Node, vars map[string]any, 
 		return nil, fmt.Errorf("error parsing %s (included from %s): %w", name, ctx.FormatTemplateChain(), err)
 	}
 
+	// Assign v-once IDs to the component's elements (per component file, see nextSeenID)
+	onceCtx := ctx.WithTemplate(name)
+	for _, n := range compDom {
+		assignSeenAttrs(&onceCtx, n)
+	}
+
 	// Validate and process template tag
 	processedDom, err := v.evalTemplate(ctx, compDom, ctx.stack.EnvMap(), depth+1)
 	if err != nil {
